@@ -287,6 +287,47 @@ func (node *Node) ProcessBlock(ctx context.Context, block wire.Block) error {
 			inMemPool = node.memPool.RemoveTransaction(*txid)
 		}
 
+		// Check for transactions in the mempool with conflicting inputs (double spends). This tx is
+		// confirmed now, so they are cancelled. This applies whether or not this tx was seen before.
+		isSafe := true
+		if conflicting := node.memPool.Conflicting(tx); len(conflicting) > 0 {
+			for _, confHash := range conflicting {
+				if confHash.Equal(txid) {
+					continue // this tx itself was still in the mempool
+				}
+				isSafe = false
+
+				if containsHash(confHash, unconfirmed) {
+					// Only send for txs that previously matched filters.
+
+					// Mark cancelled
+					txState, err := handlersstorage.FetchTxState(ctx, node.store, confHash)
+					if err != nil {
+						node.txs.ReleaseUnconfirmed(ctx)
+						return errors.Wrap(err, "fetch tx state")
+					}
+
+					txState.State.UnSafe = true
+					txState.State.Safe = false
+					txState.State.Cancelled = true
+
+					if err := handlersstorage.SaveTxState(ctx, node.store, txState); err != nil {
+						node.txs.ReleaseUnconfirmed(ctx)
+						return errors.Wrap(err, "save tx state")
+					}
+
+					// Send update
+					update := &client.TxUpdate{
+						TxID:  confHash,
+						State: txState.State,
+					}
+					for _, handler := range node.handlers {
+						handler.HandleTxUpdate(ctx, update)
+					}
+				}
+			}
+		}
+
 		if inUnconfirmed {
 			// Already seen and marked relevant
 			merkleTree.AddMerkleProof(*txid)
@@ -296,42 +337,6 @@ func (node *Node) ProcessBlock(ctx context.Context, block wire.Block) error {
 
 		} else if !inMemPool {
 			// Not seen yet
-			isSafe := true
-
-			// Transaction wasn't in the mempool.
-			// Check for transactions in the mempool with conflicting inputs (double spends).
-			if conflicting := node.memPool.Conflicting(tx); len(conflicting) > 0 {
-				isSafe = false
-				for _, confHash := range conflicting {
-					if containsHash(confHash, unconfirmed) {
-						// Only send for txs that previously matched filters.
-
-						// Mark cancelled
-						txState, err := handlersstorage.FetchTxState(ctx, node.store, *txid)
-						if err != nil {
-							node.txs.ReleaseUnconfirmed(ctx)
-							return errors.Wrap(err, "fetch tx state")
-						}
-
-						txState.State.UnSafe = true
-						txState.State.Cancelled = true
-
-						if err := handlersstorage.SaveTxState(ctx, node.store, txState); err != nil {
-							node.txs.ReleaseUnconfirmed(ctx)
-							return errors.Wrap(err, "save tx state")
-						}
-
-						// Send update
-						update := &client.TxUpdate{
-							TxID:  *txid,
-							State: txState.State,
-						}
-						for _, handler := range node.handlers {
-							handler.HandleTxUpdate(ctx, update)
-						}
-					}
-				}
-			}
 
 			if node.IsRelevant(ctx, tx) {
 				// Add to txs for block
